@@ -122,3 +122,37 @@ package filterstorage
 //@   loop 1 invariant forall id filter.ID :: has(s.ruleLists, id) == old(has(s.ruleLists, id)) && s.ruleLists[id] == old(s.ruleLists[id])
 //@   loop 1 invariant forall k int :: 0 <= k && k <= #i ==> has(newRuleLists, fls[k].id) || !has(s.ruleLists, fls[k].id)
 //@   atcall resetRuleLists assert no-listed-filter-is-dropped: forall k int :: 0 <= k && k < len(fls) ==> has(newRuleLists, fls[k].id) || !has(s.ruleLists, fls[k].id)
+
+// ---------------------------------------------------------------------------
+// C02: "the shared lists in their configured order".  What setRuleLists puts
+// into the composite's configuration is, after what was there, the installed
+// lists of the configured IDs - each of them, in the order the configuration
+// names them (an ID without an installed list is skipped).
+//
+// Ghost witnesses, set at every append: srcOf[p] is the position in the
+// configured IDs that the list at position p of the result came from, dstOf[i]
+// the position in the result of the list of the i-th configured ID.
+//@ import composite github.com/AdguardTeam/AdGuardDNS/internal/filter/internal/composite
+//@ ghost srcOf map[int]int
+//@ ghost dstOf map[int]int
+//@ pred inst(s *Default, c *filter.ConfigRuleList, i int) = has(s.ruleLists, c.IDs[i]) && s.ruleLists[c.IDs[i]] != nil
+//@ func (*Default).setRuleLists
+//@   property C02
+//@   requires s != nil && s.ruleListsMu != nil && compConf != nil && c != nil
+//@   modifies compConf.RuleLists, allelems(*rulelist.Refreshable), srcOf, dstOf
+//@   atcall append set srcOf[len(arg0)] = #i + 1
+//@   atcall append set dstOf[#i + 1] = len(arg0)
+//@   ensures nothing-when-disabled: !c.Enabled ==> compConf.RuleLists == old(compConf.RuleLists)
+//@   ensures what-was-there-stays-in-front: len(compConf.RuleLists) >= old(len(compConf.RuleLists)) && (forall p int :: 0 <= p && p < old(len(compConf.RuleLists)) ==> compConf.RuleLists[p] == old(compConf.RuleLists[p]))
+//@   ensures only-configured-installed-lists: forall p int :: old(len(compConf.RuleLists)) <= p && p < len(compConf.RuleLists) ==>
+//@             0 <= srcOf[p] && srcOf[p] < len(c.IDs) && inst(s, c, srcOf[p]) && compConf.RuleLists[p] == s.ruleLists[c.IDs[srcOf[p]]]
+//@   ensures every-configured-installed-list: c.Enabled ==> (forall i int :: 0 <= i && i < len(c.IDs) && inst(s, c, i) ==>
+//@             old(len(compConf.RuleLists)) <= dstOf[i] && dstOf[i] < len(compConf.RuleLists) && compConf.RuleLists[dstOf[i]] == s.ruleLists[c.IDs[i]])
+//@   ensures in-their-configured-order: forall p int, q int :: old(len(compConf.RuleLists)) <= p && p < q && q < len(compConf.RuleLists) ==> srcOf[p] < srcOf[q]
+//@   loop 1 invariant -1 <= #i && #i < len(c.IDs) && c.Enabled && len(compConf.RuleLists) >= old(len(compConf.RuleLists))
+//@   loop 1 invariant forall p int :: 0 <= p && p < old(len(compConf.RuleLists)) ==> compConf.RuleLists[p] == old(compConf.RuleLists[p])
+//@   loop 1 invariant forall p int :: old(len(compConf.RuleLists)) <= p && p < len(compConf.RuleLists) ==>
+//@             0 <= srcOf[p] && srcOf[p] <= #i && inst(s, c, srcOf[p]) && compConf.RuleLists[p] == s.ruleLists[c.IDs[srcOf[p]]]
+//@   loop 1 invariant forall i int :: 0 <= i && i <= #i && inst(s, c, i) ==>
+//@             old(len(compConf.RuleLists)) <= dstOf[i] && dstOf[i] < len(compConf.RuleLists) && compConf.RuleLists[dstOf[i]] == s.ruleLists[c.IDs[i]]
+//@   loop 1 invariant forall p int, q int :: old(len(compConf.RuleLists)) <= p && p < q && q < len(compConf.RuleLists) ==> srcOf[p] < srcOf[q]
